@@ -46,6 +46,9 @@ mkscope(struct scope *parent)
 	s->continuelabel = parent->continuelabel;
 	s->switchcases = parent->switchcases;
 	s->parent = parent;
+#ifdef CPROC_VERIF
+	vtrace("{\"e\":\"open\",\"s\":\"%p\",\"p\":\"%p\"}", (void *)s, (void *)parent);
+#endif
 
 	return s;
 }
@@ -55,6 +58,9 @@ delscope(struct scope *s)
 {
 	struct scope *parent = s->parent;
 
+#ifdef CPROC_VERIF
+	vtrace("{\"e\":\"close\",\"s\":\"%p\"}", (void *)s);
+#endif
 	if (s->decls.len)
 		mapfree(&s->decls, NULL);
 	if (s->tags.len)
@@ -69,12 +75,18 @@ scopegetdecl(struct scope *s, const char *name, bool recurse)
 {
 	struct decl *d;
 	struct mapkey k;
+#ifdef CPROC_VERIF
+	struct scope *s0 = s;
+#endif
 
 	mapkey(&k, name, strlen(name));
 	do {
 		d = s->decls.len ? mapget(&s->decls, &k) : NULL;
 		s = s->parent;
 	} while (!d && s && recurse);
+#ifdef CPROC_VERIF
+	vtrace("{\"e\":\"get\",\"ns\":\"decl\",\"s\":\"%p\",\"name\":\"%s\",\"rec\":%d,\"id\":\"%p\"}", (void *)s0, name, (int)recurse, (void *)d);
+#endif
 
 	return d;
 }
@@ -84,12 +96,18 @@ scopegettag(struct scope *s, const char *name, bool recurse)
 {
 	struct type *t;
 	struct mapkey k;
+#ifdef CPROC_VERIF
+	struct scope *s0 = s;
+#endif
 
 	mapkey(&k, name, strlen(name));
 	do {
 		t = s->tags.len ? mapget(&s->tags, &k) : NULL;
 		s = s->parent;
 	} while (!t && s && recurse);
+#ifdef CPROC_VERIF
+	vtrace("{\"e\":\"get\",\"ns\":\"tag\",\"s\":\"%p\",\"name\":\"%s\",\"rec\":%d,\"id\":\"%p\"}", (void *)s0, name, (int)recurse, (void *)t);
+#endif
 
 	return t;
 }
@@ -103,6 +121,9 @@ scopeputdecl(struct scope *s, struct decl *d)
 		mapinit(&s->decls, 32);
 	mapkey(&k, d->name, strlen(d->name));
 	*mapput(&s->decls, &k) = d;
+#ifdef CPROC_VERIF
+	vtrace("{\"e\":\"put\",\"ns\":\"decl\",\"s\":\"%p\",\"name\":\"%s\",\"id\":\"%p\"}", (void *)s, d->name, (void *)d);
+#endif
 }
 
 void
@@ -114,4 +135,7 @@ scopeputtag(struct scope *s, const char *name, struct type *t)
 		mapinit(&s->tags, 32);
 	mapkey(&k, name, strlen(name));
 	*mapput(&s->tags, &k) = t;
+#ifdef CPROC_VERIF
+	vtrace("{\"e\":\"put\",\"ns\":\"tag\",\"s\":\"%p\",\"name\":\"%s\",\"id\":\"%p\"}", (void *)s, name, (void *)t);
+#endif
 }
